@@ -68,19 +68,27 @@ func checkSign(c *Case, v *Verdict) {
 	op := c.Op
 	if op.Fn == "GenerateKey" {
 		p := prepare(op)
+		defer p.G.Release()
 		out := execOp(p)
 		v.Pts, v.Calls = out.Pts, 1
 		v.noteDev(out.Dev, op.Rd)
 		v.Sig = fmt.Sprintf("genkey nil=%v", op.NilRd)
 		v.Nontriv = true
-		if out.err != nil || out.Panic != "" || out.Dev.Delivered < 32 {
-			if out.Dev.Calls == 0 {
-				return
-			}
+		if out.Dev.Calls == 0 {
+			return // entropy came from somewhere else than crypto/rand.Reader: nothing to compare with
+		}
+		if out.err != nil || out.Panic != "" {
 			v.fail("c02-genkey", "a key pair", fmt.Sprintf("err=%v panic=%q", out.err, out.Panic), "GenerateKey failed on a healthy reader")
 			return
 		}
-		ref := stded.NewKeyFromSeed(out.Dev.Bytes[:32])
+		// the seed is the first 32 bytes of the entropy stream, however the
+		// device chops it up (content is a pure function of the offset)
+		probe := NewDevice(op.Rd)
+		stream := make([]byte, 32)
+		for i := range stream {
+			stream[i] = probe.contentByte(i)
+		}
+		ref := stded.NewKeyFromSeed(stream)
 		if !bytes.Equal(out.b2, ref) || !bytes.Equal(out.b, ref[32:]) {
 			v.fail("c02-genkey-derivation", hx(ref), hexOrNil(out.b2), "GenerateKey's key pair differs from RFC 8032 derivation of the seed read")
 		}
@@ -130,6 +138,7 @@ func checkSign(c *Case, v *Verdict) {
 		o2.Rd, o2.NilRd = rn.rd, rn.nilr
 		o2.KL = 0
 		p := prepare(&o2)
+		defer p.G.Release()
 		// prepare derives the key from signerSeed; substitute the seed kind
 		p.priv = p.G.Buf([]byte(ref))
 		p.msg = p.G.Buf(msg)
